@@ -41,7 +41,7 @@ ASSUMPTIONS = ["edits go through public attributes (flowgen.apply_edit)", "state
                "server connection is not OPEN (address/via edits on open connections are refused by design)"]
 LEVEL_TEXT = "exploration: sampled edit/backup/revert/copy histories over all flow kinds; reference model = snapshots taken by the harness"
 LEVEL_NOTE = "trusts flowgen.observe for attribute-level comparison"
-QUICK_N, THOROUGH_N = 16_000, 1_500_000
+QUICK_N, THOROUGH_N = 10_000, 1_500_000
 
 
 def strategy(ctx):
